@@ -81,7 +81,7 @@ def byte_at(s, i):
 def len_minus(ln, k):
     if isinstance(ln, int):
         return ln - k
-    return ln - z3.BitVecVal(k, 64)
+    return z3.simplify(ln - z3.BitVecVal(k, 64))
 
 
 # ----------------------------------------------------------------------
